@@ -231,7 +231,7 @@ FOREIGN_KINDS = ["garbage_bytes", "text", "json_number", "json_array", "json_nul
 
 def gen_foreign(rng, kind):
     if kind == "garbage_bytes":
-        return bytes(rng.choice([x for x in range(256) if x != 10]) for _ in range(rng.randint(1, 30)))
+        return bytes(rng.choice([x for x in range(256) if x != 10]) for _ in range(rng.choice([rng.randint(1, 30), 70000, 200000])))
     if kind == "text":
         return rng.choice([b"hello world", b"Traceback (most recent call last):", b"  File \"x.py\", line 3", b"{not json}", b"[1, 2", b"'single'", b"{\"a\": }"])
     if kind == "json_number":
@@ -268,6 +268,10 @@ def run_cli(spec, res):
         for _ in range(rng.randint(2, 14)):
             if rng.random() < 0.5:
                 m = gen_message(rng)
+                if rng.random() < 0.08:
+                    # a very long line (above 64 KiB, sometimes around 1 MiB)
+                    m["big"] = rng.choice(["x", "é", "word "]) * rng.choice([70000, 140000, 1100000])
+                    kinds.add("long_message")
                 enc = json.dumps(m, ensure_ascii=rng.random() < 0.5).encode("utf-8")
                 lines.append(("eliot", m, enc))
             else:
@@ -334,9 +338,10 @@ def run_filter(spec, res):
             m["n"] = j
             msgs.append(m)
         data = "".join(json.dumps(m, ensure_ascii=rng.random() < 0.5) + "\n" for m in msgs).encode("utf-8")
-        mode = rng.choice(["identity", "skip_odd", "skip_type", "field", "datetime"])
+        mode = rng.choice(["identity", "skip_odd", "skip_type", "field", "datetime", "missing_field", "falsy"])
         expr = {"identity": "J", "skip_odd": "SKIP if J['n'] % 2 else J", "skip_type": "SKIP if 'action_type' in J else J",
-                "field": "J['task_level']", "datetime": "datetime.utcfromtimestamp(0) + timedelta(seconds=J['n'])"}[mode]
+                "field": "J['task_level']", "datetime": "datetime.utcfromtimestamp(0) + timedelta(seconds=J['n'])",
+                "missing_field": "J.get('no_such_field_zz')", "falsy": "[None, 0, '', [], {}, False][J['n'] % 6]"}[mode]
         env = dict(os.environ, PYTHONPATH=REPO, PYTHONIOENCODING="utf-8", PYTHONWARNINGS="ignore")
         try:
             p = subprocess.run([sys.executable, "-m", "eliot.filter", expr], input=data, capture_output=True, env=env, timeout=120)
@@ -357,6 +362,10 @@ def run_filter(spec, res):
             want = [m for m in msgs if "action_type" not in m]
         elif mode == "field":
             want = [m["task_level"] for m in msgs]
+        elif mode == "missing_field":
+            want = [None for m in msgs]  # the JSON encoding of the expression's value, null, for every line
+        elif mode == "falsy":
+            want = [[None, 0, "", [], {}, False][m["n"] % 6] for m in msgs]
         else:
             want = [(datetime.datetime(1970, 1, 1) + datetime.timedelta(seconds=m["n"])).isoformat() for m in msgs]
         got = []
